@@ -204,7 +204,7 @@ def run_case(case):
 
 
 # ------------------------------------------------------------------------------------------ asyncio
-def build_async(cycle, nested, sched, ladder=0, allow=False):
+def build_async(cycle, nested, sched, ladder=0, allow=False, race_activation=False):
     log = []
     nest = {tuple(x) for x in nested}
     ns, events = shape(cycle, ladder)
@@ -229,6 +229,13 @@ def build_async(cycle, nested, sched, ladder=0, allow=False):
 
     for ev in events:
         ns.update({f"before_{ev}": before, f"on_{ev}": on_any, f"after_{ev}": after})
+
+    if race_activation:
+        async def on_enter_s0(self):
+            # the initial state's enter callback suspends too: an explicit activation may still be in progress when senders arrive
+            await sched.point(("enter-s0",))
+
+        ns["on_enter_s0"] = on_enter_s0
     import types
 
     cls = types.new_class("AConc", (StateMachine,), {}, lambda d: d.update(ns))
@@ -243,8 +250,9 @@ def run_async(case):
         sched = GateSched(case.get("choices", [0]), cycle=not case.get("exact"))
         with warnings.catch_warnings():
             warnings.simplefilter("ignore")
-            sm, log = build_async(case.get("cycle", 1), case.get("nested", []), sched, ladder=case.get("ladder", 0), allow=case.get("allow", False))
-        if case.get("activate"):
+            sm, log = build_async(case.get("cycle", 1), case.get("nested", []), sched, ladder=case.get("ladder", 0), allow=case.get("allow", False),
+                                  race_activation=case.get("activate") == "race")
+        if case.get("activate") and case.get("activate") != "race":
             await sm.activate_initial_state()
         styles = case.get("styles", [])
 
@@ -262,6 +270,11 @@ def run_async(case):
                     await sched.point(("idle", w, k))
 
         tasks = []
+        if case.get("activate") == "race":
+            # one more task activates the machine explicitly while the senders are already sending
+            ta = asyncio.ensure_future(sm.activate_initial_state())
+            ta._wid = -1
+            tasks.append(ta)
         for w in range(len(senders)):
             t = asyncio.ensure_future(sender(w))
             t._wid = w
@@ -364,7 +377,8 @@ def extra(tier, seed, shard, nshards):
     # (odometer over the schedule tree; the branching factor at each release is the number of waiting gates)
     aconfigs = [{"senders": [1, 1], "styles": ["await", "await"]}, {"senders": [1, 1], "styles": ["deferred", "await"]},
                 {"senders": [1, 1], "styles": ["await", "await"], "nested": [[0, 0]]},
-                {"senders": [2, 1], "styles": ["deferred", "await"], "ladder": 2, "allow": True}, {"senders": [1, 1, 1], "styles": ["await", "deferred", "deferred"], "untagged": True}]
+                {"senders": [2, 1], "styles": ["deferred", "await"], "ladder": 2, "allow": True}, {"senders": [1, 1, 1], "styles": ["await", "deferred", "deferred"], "untagged": True},
+                {"senders": [1, 1], "styles": ["await", "deferred"], "activate": "race"}]
     if tier == "thorough":
         aconfigs += [{"senders": [1, 2], "styles": ["deferred", "idle"]}, {"senders": [2, 1], "styles": ["await", "deferred"], "nested": [[1, 0]]},
                      {"senders": [1, 1, 1], "styles": ["await", "deferred", "await"]}]
@@ -427,7 +441,7 @@ def cases(draw, tier):
         n = draw(st.integers(2, 4))
         senders = [draw(st.integers(1, 3)) for _ in range(n)]
         nested = [[w, k] for w in range(n) for k in range(senders[w]) if draw(st.integers(0, 9)) < 3]
-        return dict({"engine": "asyncio", "cycle": draw(st.integers(1, 3)), "senders": senders, "nested": nested, "activate": draw(st.booleans()),
+        return dict({"engine": "asyncio", "cycle": draw(st.integers(1, 3)), "senders": senders, "nested": nested, "activate": draw(st.sampled_from([False, True, "race", "race"])),
                      "styles": [draw(st.sampled_from(["await", "deferred", "idle", "deferred"])) for _ in range(n)],
                      "choices": draw(st.lists(st.integers(0, 7), min_size=1, max_size=40))}, **draw(mode(senders, nested)))
     n = draw(st.sampled_from([2, 2, 3, 3, 4]))
